@@ -124,10 +124,18 @@ JSON JSON::parse(StringReader& r, bool disable_extensions) {
       // double range), so accumulate it separately.
       int_data = 0;
       float_data = 0;
+      // The digits alone may leave the double range even when the number does
+      // not (1000...000e-400, 0.000...0001e400), so integer digits beyond
+      // 1e300 and leading zeros of the fraction only adjust the exponent.
+      int64_t e_adjust = 0;
       while (!r.eof() && isdigit(r.get_s8(false))) {
         int8_t digit = r.get_s8() - '0';
         int_data = int_data * 10 + digit;
-        float_data = float_data * 10 + digit;
+        if (float_data < 1e300) {
+          float_data = float_data * 10 + digit;
+        } else {
+          e_adjust++;
+        }
       }
 
       double this_place = 0.1;
@@ -135,8 +143,13 @@ JSON JSON::parse(StringReader& r, bool disable_extensions) {
         is_int = false;
         r.get_s8();
         while (!r.eof() && isdigit(r.get_s8(false))) {
-          float_data += (r.get_s8() - '0') * this_place;
-          this_place *= 0.1;
+          int8_t digit = r.get_s8() - '0';
+          if ((float_data == 0) && (digit == 0)) {
+            e_adjust--;
+          } else {
+            float_data += digit * this_place;
+            this_place *= 0.1;
+          }
         }
       }
 
@@ -156,16 +169,14 @@ JSON JSON::parse(StringReader& r, bool disable_extensions) {
         while (!r.eof() && isdigit(r.get_s8(false))) {
           e = e * 10 + (r.get_s8() - '0');
         }
+        e_adjust += e_negative ? -static_cast<int64_t>(e) : e;
+      }
 
-        if (e_negative) {
-          for (; e > 0; e--) {
-            float_data *= 0.1;
-          }
-        } else {
-          for (; e > 0; e--) {
-            float_data *= 10;
-          }
-        }
+      for (; e_adjust < 0; e_adjust++) {
+        float_data *= 0.1;
+      }
+      for (; e_adjust > 0; e_adjust--) {
+        float_data *= 10;
       }
     }
 
